@@ -142,6 +142,16 @@ class Verifier(Exec):
         self.wrap_types = set()
         for w in spec.opts.get('wrap', []):
             self.wrap_types |= set(w.replace(',', ' ').split())
+        # ghost variables:  //@ ghost NAME int            (starts at 0)
+        #                   //@ ghost @"source text" NAME = expr   (assignment executed when that line is reached)
+        self.ghost_vars = []
+        self.ghost_updates = []
+        for g_ in spec.opts.get('ghost', []):
+            mu_ = re.match(r'^@"(.*?)"\s+(\w+)\s*=\s*(.*)$', g_)
+            if mu_:
+                self.ghost_updates.append((mu_.group(1), mu_.group(2), mu_.group(3).split(' -- ')[0].strip()))
+            else:
+                self.ghost_vars.append(g_.split()[0])
         self.track_init = any('init' in x.split() for x in spec.opts.get('track', []))
         self.check_wide_ovf = any('int' in x.split() for x in spec.opts.get('ovf', []))
         for x_ in spec.opts.get('track', []):
@@ -708,6 +718,8 @@ class Verifier(Exec):
         for p in self.fn['freevars']:
             if p['name'] not in env:
                 env[p['name']] = ('lazy', (lambda n_: (lambda st_: self.deref_free(st_, n_)))(p['name']))
+        for gn_ in getattr(self, 'ghost_vars', []):
+            env[gn_] = ('lazy', (lambda n_: (lambda st_: st_.ghost.get('gv:' + n_, ZERO)))(gn_))
         return env
 
     def deref_free(self, st, n):
@@ -733,6 +745,8 @@ class Verifier(Exec):
             env[p['name']] = ('lazy', (lambda n_: (lambda st_: self.param_vals[n_]))(p['name']))
         for p in self.fn['freevars']:
             env[p['name']] = ('lazy', (lambda n_: (lambda st_: self.deref_free(st_, n_)))(p['name']))
+        for gn_ in getattr(self, 'ghost_vars', []):
+            env[gn_] = ('lazy', (lambda n_: (lambda st_: st_.ghost.get('gv:' + n_, ZERO)))(gn_))
         return env
 
     def eval_clause(self, clause, st, env, old=None, what=''):
@@ -1987,7 +2001,7 @@ class Verifier(Exec):
 
     def anchors_at(self, st, line):
         spec = self.spec
-        if not spec or not getattr(spec, 'anchored', None) or not line:
+        if not spec or not (getattr(spec, 'anchored', None) or getattr(self, 'ghost_updates', None)) or not line:
             return
         if self.srclines is None:
             try:
@@ -1997,7 +2011,13 @@ class Verifier(Exec):
         if line - 1 >= len(self.srclines):
             return
         text = self.srclines[line - 1]
-        for cl in spec.anchored:
+        for anchor_, gname_, gexpr_ in getattr(self, 'ghost_updates', []):
+            # (an assignment runs once when the path comes to the line from another line: a condition like
+            #  `a && b` spreads one source line over several blocks)
+            if anchor_ in text and st.ghost.get('py:line') != line:
+                env = dict(self.spec_env(self.scope_at_line(line)))
+                st.ghost['gv:' + gname_] = self.ctx.name('gv:' + gname_, SpecEval(self, st, env, self.old, 'ghost ' + gname_).term(parse_expr(gexpr_)))
+        for cl in (getattr(spec, 'anchored', None) or []):
             if cl.anchor in text:
                 scope = self.scope_at_line(line)
                 env = dict(self.spec_env(scope))
@@ -2024,6 +2044,8 @@ class Verifier(Exec):
         if ln and ln != self.last_anchor_line.get(blk['index']):
             self.last_anchor_line[blk['index']] = ln
             self.anchors_at(st, ln)
+        if ln:
+            st.ghost['py:line'] = ln
         self.cur_line = ins.get('line') or self.cur_line
         self.cur_detail = ins.get('name') or op
         self.cur_detail = self.detail_for(ins)
@@ -2281,6 +2303,8 @@ class Verifier(Exec):
         self.alloc0 = c.declare_const('alloc0', INT)
         c.assume(lt(ONE, self.alloc0))
         st.alloc = self.alloc0
+        for gn_ in getattr(self, 'ghost_vars', []):
+            st.ghost['gv:' + gn_] = ZERO
         for p in fn['params']:
             v = self.fresh_value('p:' + p['name'], p['type'])
             if isinstance(v, Opaque) and self.kind(p['type']) in ('func', 'chan'):
@@ -2433,6 +2457,11 @@ class Verifier(Exec):
         for _, s in ins_:
             gk |= set(s.ghost)
         for k in gk:
+            if k.startswith('py:'):
+                vs_ = set(s.ghost.get(k) for _, s in ins_)
+                if len(vs_) == 1:
+                    st.ghost[k] = vs_.pop()
+                continue
             vals = [s.ghost.get(k, FALSE if k.startswith('defer:') else None) for _, s in ins_]
             if all(v is not None for v in vals):
                 st.ghost[k] = self.merge_values(conds, vals, 'g:' + k)
@@ -2671,6 +2700,8 @@ class Verifier(Exec):
         for cn in sorted(cells):
             if cn in st.cells:
                 st.cells[cn] = self.fresh_value('lv:%s' % (self.cellinfo[cn][0] or cn), self.cellinfo[cn][2], True, na_loop)
+        for gn_ in getattr(self, 'ghost_vars', []):
+            st.ghost['gv:' + gn_] = self.ctx.fresh('gv:' + gn_, INT)       # ghost variables are havocked at every loop
         regions = None
         if spec and spec.writes is not None:
             regions = self.eval_regions(spec.writes, pre, env) + [('fresh', pre.alloc)]
